@@ -6,7 +6,8 @@ from props import _store_util as U
 
 THEOREMS = [
     "C03.sib_unique_step", "C03.sib_unique_run", "C03.pathNames_injective", "C03.split_join",
-    "C03.path_name_injective", "C03.depth_eq_length", "C03.sep_is_root_sep", "C03.find_full_path_path_name",
+    "C03.path_name_injective", "C03.path_name_eq", "C03.depth_eq_length", "C03.sep_is_root_sep",
+    "C03.find_full_path_path_name", "C03.dup_refused_unchanged",
 ]
 RULE = ("Node histories (user subclass with raising hooks) with names from {a,b,ab,ba,aa,'a b','a.b'} (equal names in "
         "different branches, prefix/suffix related names), separators / . \\ | (and '::', tie only) never occurring in a "
